@@ -829,7 +829,10 @@ class MaterializedNodeCollector(CachedWalkMapper[[]]):
                     isinstance(expr, Array)
                     and expr.tags_of_type(ImplStored))):
             self.materialized_nodes.add(expr)
-        elif isinstance(expr, DistributedSendRefHolder):
+
+        # (not 'elif': a send-ref holder reports its passthrough data's tags,
+        # hence may itself count as tagged with ImplStored)
+        if isinstance(expr, DistributedSendRefHolder):
             self.materialized_nodes.add(expr.send.data)
         elif isinstance(expr, LoopyCall):
             for subexpr in expr.bindings.values():
